@@ -59,7 +59,7 @@ def pinnedSkeleton : List (String × String) := [
   ("exeParser.readFragment", "9888b86ba516"),
   ("exeParser.readFragmentDef", "ac7947967256"),
   ("exeParser.readInline", "c937b7931829"),
-  ("exeParser.readOp", "3f2c7946f8fe"),
+  ("exeParser.readOp", "fd5442d6288c"),
   ("exeParser.readSelectionSet", "355ecb6ffc3e"),
   ("exeParser.readVarDef", "c683f216d2b6"),
   ("exeParser.readVarDefs", "007f8ff5b513"),
@@ -125,7 +125,7 @@ theorem C03_parseValue_total_current (bytes : List UInt8) (tail : Tail) :
 
 /-- **C03 for request documents on the tables of this run** -/
 theorem C03_parseExe_total_current (bytes : List UInt8) (tail : Tail) :
-    (ExeCF.parseExe genCM { varTypeOptional := Gen.exeVarTypeOptional, opErrPosAfterLookahead := Gen.opErrPosAfterLookahead, fragCondPosAfterToken := Gen.fragCondPosAfterToken } (sdlFuel bytes) bytes tail).2.oof = false :=
+    (ExeCF.parseExe genCM { varTypeOptional := Gen.exeVarTypeOptional, opErrPosAfterLookahead := Gen.opErrPosAfterLookahead, fragCondPosAfterToken := Gen.fragCondPosAfterToken, opLineBeforeSkip := Gen.opLineBeforeSkip } (sdlFuel bytes) bytes tail).2.oof = false :=
   C03_parseExe_total genCM gen_numStart_isNum_all _ bytes tail
 
 theorem gen_quote_not_space : genCM.isSpace 34 = false := by decide
